@@ -53,7 +53,7 @@ def _build_job_statepoint_index(exclude_const, index):
         for key, _ in _nested_dicts_to_dotted_keys(doc):
             dotted_keys.add(key)
     for key in dotted_keys:
-        if key.split(".")[0] == "sp":
+        if key.startswith("sp."):
             indexes[key] = index.build_index(key)
 
     for key in sorted(indexes, key=lambda key: (len(indexes[key]), key)):
